@@ -44,6 +44,4 @@ def classify(tags, mode, st):
     if imm is not None and st[0] == "mn" and st[1] in ("ADD", "OR", "ADC", "SBB", "AND", "SUB", "XOR", "CMP") and w in (16, 32) \
             and imm >= 2 ** (w - 1) and imm - 2 ** w >= -128:
         return "C18-unsigned-imm-not-sign-extended"      # only ever a C18 failure: the full-width form is a correct encoding
-    if form == "mov r16,sreg":
-        return "X86-mov-r16-sreg-rm"
     return None
